@@ -32,6 +32,12 @@ PROPERTY = 'C02'
 GIT_MUTATIONS = ('push', 'push_all', 'push_delete', 'push_refspec', 'tag_push')
 
 
+# "all of its target branches or none" through the queue rests on the evaluation dropping a pull request on every
+# version at once: _recursive_lookup only ever pops whole heads down to the failed pull request (a suffix is
+# kept on every version) and _remove_unmergeable cuts every version at the newest selected pull request
+REUSED_CONTRACTS = (('c05', ('QueueCollection._recursive_lookup', 'QueueCollection._remove_unmergeable')),)
+
+
 def base_env():
     env = handlers.base_env(PROPERTY)
     env.ref_methods[('Br', 'remove')] = B.IntegrationBranch.remove
